@@ -1,1 +1,601 @@
-"""placeholder"""
+"""C08 - lifecycle contract: exception-structure evaluation of Filter.run for every (site x kind x policy) scenario,
+policy bit tables, exit() always raises, stop-event polling, no call of a module, teardown pairing."""
+
+from __future__ import annotations
+
+import ast
+import re
+from functools import lru_cache
+
+from . import rule
+from ..model import Unresolved, walk_scope, parent, enclosing_function, qualname, Repo
+from ..paths import U, Path, Evaluator, Exc, Event
+from .. import q
+
+FILTER = 'openfilter/filter_runtime/filter.py'
+MQF = 'openfilter/filter_runtime/mq.py'
+Z = 'openfilter/filter_runtime/zeromq.py'
+
+SITES = ['ctor', 'init', 'setup', 'loop_once', 'loop_once#2', 'shutdown', 'send_exit_msg', 'fini', 'stop_logging']
+KINDS = [None, 'Exception', 'Exit', 'PropagateError', 'KeyboardInterrupt']
+PROPS = ['none', 'clean', 'error', 'all']
+
+SITE_TERM = {'ctor': 'cls', 'init': 'filter.init', 'setup': 'filter.setup', 'loop_once': 'filter.loop_once', 'shutdown': 'filter.shutdown',
+             'send_exit_msg': 'filter.mq.send_exit_msg', 'fini': 'filter.fini', 'stop_logging': 'filter.stop_logging'}
+
+
+class RunModel:
+    def __init__(self, repo: Repo):
+        self.repo = repo
+        self.mod, self.run = repo.find(f'{FILTER}::Filter.run')
+        self.fini = repo.find(f'{FILTER}::Filter.fini')[1]
+        self.exit = repo.find(f'{FILTER}::Filter.exit')[1]
+        self.consts = q.module_consts(self.mod)
+        flags = self.consts.get('PROP_EXIT_FLAGS')
+        if not isinstance(flags, dict):
+            raise Unresolved(f'{FILTER}: PROP_EXIT_FLAGS does not fold to a dict literal')
+        self.flags = flags
+        self.kref = {
+            'Exception': ('builtin', 'Exception'),
+            'KeyboardInterrupt': ('builtin', 'KeyboardInterrupt'),
+            'Exit': ('repo', f'{FILTER}::Filter.Exit'),
+            'PropagateError': ('repo', f'{FILTER}::Filter.PropagateError'),
+        }
+        for k in ('Exit', 'PropagateError'):
+            if self.kref[k][1] not in repo.classes():
+                raise Unresolved(f'{FILTER}: class Filter.{k} not found')
+        self.npaths = 0
+
+    def scenario(self, site: str | None, kind: str | None, prop: str, loop_yes: bool, via_exit: bool = False, emitter: bool = True,
+                 start_emitted_in_init: bool = True) -> list[Path]:
+        """Evaluate Filter.run with a fault of `kind` injected at `site` (n-th occurrence for 'x#n')."""
+        nth = 1
+        base = site
+        if site and '#' in site:
+            base, n = site.split('#')
+            nth = int(n)
+        mod = self.mod
+        model = self
+
+        synth_exit = None
+        if via_exit and site is not None:
+            arg = ", Filter.PropagateError" if kind == 'PropagateError' else ''
+            synth_exit = ast.parse(f"def __site__(self):\n    self.exit('injected'{arg})\n").body[0]
+
+        def oracle(call, rc, path, ev):
+            if site is None or kind is None or via_exit:
+                return None
+            if ev.term == SITE_TERM[base] and path.depth == 0:
+                c = path.counters.get('site', 0) + 1
+                path.counters['site'] = c
+                if c == nth:
+                    return [Exc(model.kref[kind], kind, call)]
+            return None
+
+        def inline(call, rc, path):
+            term = U(rc.func)
+            if path.depth == 0 and synth_exit is not None and term == SITE_TERM[base]:
+                c = path.counters.get('isite', 0) + 1
+                path.counters['isite'] = c
+                if c == nth:
+                    return (mod, synth_exit, ast.Name(id='filter', ctx=ast.Load()))
+            if term == 'filter.fini':
+                return (mod, model.fini, rc.func.value)
+            if term.endswith('.exit') and term in ('filter.exit', 'self.exit'):
+                return (mod, model.exit, rc.func.value)
+            return None
+
+        ev = Evaluator(self.repo, mod, consts={k: v for k, v in self.consts.items() if not isinstance(v, dict)}, unroll_while=2,
+                       call_oracle=oracle, inline=inline, max_depth=3)
+        ev.keep_names_for_calls = True
+        ev.simplify = True
+        ev.classes_truthy = True
+        ev.const_tables = {'PROP_EXIT_FLAGS': self.flags}
+        ev.scope_node = self.run
+        start = Path()
+        start.env['prop_exit'] = ast.Constant(prop)
+        start.env['loop_exc'] = ast.Constant(loop_yes)
+        start.env['sig_stop'] = ast.Constant(False)
+        for k, v in (('isnone(config)', False), ('isnone(stop_evt)', False), ("in('__env_run', config)", False),
+                     ("truthy(hasattr(filter, 'emitter'))", emitter), ('isnone(filter.emitter)', not emitter),
+                     ("truthy(hasattr(self, 'emitter'))", emitter), ('isnone(self.emitter)', not emitter),
+                     ('isnone(filter)', False)):
+            start.facts[k] = v
+        paths = ev.run(self.run.body, start)
+        self.npaths += len(paths)
+        return paths
+
+
+def model(repo) -> RunModel:
+    m = getattr(repo, '_runmodel', None)
+    if m is None:
+        m = repo._runmodel = RunModel(repo)
+    return m
+
+
+def trace(p: Path) -> list[str]:
+    """Lifecycle / lineage alphabet of a path."""
+    out = []
+    for e in p.events:
+        if e.kind != 'call':
+            continue
+        t = e.term
+        if t in ('cls', 'filter.init', 'filter.setup', 'filter.loop_once', 'filter.shutdown', 'filter.stop_logging', 'stop_evt.set'):
+            out.append(t.split('.')[-1] if t != 'stop_evt.set' else 'stop_evt.set')
+        elif t == 'filter.mq.send_exit_msg':
+            out.append(f'send_exit_msg({e.args[0] if e.args else ""})')
+        elif t == 'filter.fini':
+            out.append('fini')
+        elif t.endswith('.mq.destroy'):
+            out.append('mq.destroy')
+        elif t.endswith('.emitter.emit_stop'):
+            out.append('ABORT')
+        elif t.endswith('.emitter.emit_complete'):
+            out.append('COMPLETE')
+        elif t.endswith('.emitter.emit_start'):
+            out.append('START')
+        elif t.endswith('.emitter.stop_lineage_heart_beat'):
+            out.append('hb_stop')
+        elif t.endswith('.emitter.start_lineage_heart_beat'):
+            out.append('hb_start')
+        elif t.endswith('.stop_evt.set'):
+            out.append('exit:stop_evt.set')
+    return out
+
+
+def site_returned(p: Path, site: str, fault_site, fault_kind, nth_fault=1) -> bool:
+    """Did the given lifecycle call return normally on this path?"""
+    term = SITE_TERM[site]
+    calls = [e for e in p.events if e.kind == 'call' and e.term == term and e.depth == 0]
+    if not calls:
+        return False
+    if fault_site is None or fault_kind is None:
+        return True
+    base = fault_site.split('#')[0]
+    if base != site:
+        return True
+    n = int(fault_site.split('#')[1]) if '#' in fault_site else 1
+    # the n-th call of the site raised
+    if site == 'loop_once':
+        return False if len(calls) >= n else True
+    return not (len(calls) >= n)
+
+
+def loop_iterations_selector(p: Path, want: str) -> bool:
+    """Select paths by the stop-event history of the main loop: 'never' (stop set before the first iteration),
+    'once' (one iteration then stop), 'more'."""
+    seq = [v for k, v in p.pc if k == 'truthy(stop_evt.is_set())']
+    if want == 'never':
+        return seq[:1] == [True]
+    return True
+
+
+def scenario_label(site, kind, prop, loop_yes, via_exit):
+    return f'{kind or "no-fault"}{"(exit())" if via_exit else ""}@{site or "-"} prop_exit={prop} loop_exc={"Yes" if loop_yes else "Exception"}'
+
+
+def expected_outcome(site, kind, loop_yes):
+    """'return' | 'raise' | None (not judged) - the table the lifecycle contract states."""
+    if kind is None:
+        return 'return'
+    base = site.split('#')[0]
+    if kind == 'Exception':
+        if base == 'loop_once' and not loop_yes:
+            return None      # LOOP_EXC=false asks for loop errors to be swallowed; structural clauses only
+        return 'raise'
+    if kind == 'Exit':
+        return 'return' if base in ('init', 'setup', 'loop_once', 'shutdown', 'send_exit_msg', 'fini') else None
+    if kind == 'PropagateError':
+        if base == 'loop_once' and not loop_yes:
+            return None
+        return 'return' if base in ('setup', 'loop_once', 'shutdown') else None
+    return None
+
+
+def all_scenarios():
+    for site in [None] + SITES:
+        for kind in KINDS:
+            if (site is None) != (kind is None):
+                continue
+            for prop in PROPS:
+                for loop_yes in (True, False):
+                    yield site, kind, prop, loop_yes
+
+
+@rule('C08.R1', 'exception-structure table of Filter.run: for every (site x exception kind x policy) scenario shutdown runs once iff setup returned, '
+                'fini once iff init returned, stop_logging iff constructed, stop_evt.set() last, exit message sent iff the policy bit matches the kind in flight, '
+                'and run() returns for clean exits / raises for errors')
+def r1(rr, repo):
+    m = model(repo)
+    mod, run = m.mod, m.run
+    n_scen = 0
+    FL = m.flags
+    for site, kind, prop, loop_yes in all_scenarios():
+        if site == 'send_exit_msg' and not (FL[prop] & FL['clean']):
+            n_scen += 1
+            continue   # the policy sends no message on a clean end, so this fault site does not exist in the scenario
+        paths = m.scenario(site, kind, prop, loop_yes)
+        n_scen += 1
+        label = scenario_label(site, kind, prop, loop_yes, False)
+        if not paths:
+            rr.unresolved(f'scenario {label}: no path', mod, run, key=f'nopath|{label}')
+            continue
+        base = site.split('#')[0] if site else None
+        reached = False
+        for p in paths:
+            tr = trace(p)
+            # was the fault site reached on this path (e.g. loop never entered because stop_evt was already set)?
+            fault_hit = kind is None or any(e.kind == 'raise' and e.raw.startswith(f'<{kind} raised by') for e in p.events)
+            if kind is not None and not fault_hit:
+                continue
+            if p.outcome is not None and p.outcome[0] == 'loopcut':
+                continue   # unrolling bound reached: not a complete run
+            reached = True
+            w = f'{label}: {" ".join(tr)} => {p.outcome_text()}'
+            ctor_ok = site != 'ctor' or kind is None
+            init_ok = ctor_ok and not (base == 'init' and kind is not None) and 'init' in tr
+            setup_ok = init_ok and not (base == 'setup' and kind is not None) and 'setup' in tr
+            # a
+            nshut = tr.count('shutdown')
+            rr.ob('shutdown() runs exactly once iff setup() completed, else not at all', nshut == (1 if setup_ok else 0), mod, run, witness=w,
+                  key=f'shutdown-count|setup_ok={setup_ok}|n={nshut}')
+            # b
+            nfini = tr.count('mq.destroy')
+            if not (base == 'fini' and kind is not None):
+              rr.ob('communication is torn down (fini -> mq.destroy) exactly once iff init() completed', nfini == (1 if init_ok else 0), mod, run, witness=w,
+                  key=f'fini-count|init_ok={init_ok}|n={nfini}')
+            # c
+            nlog = tr.count('stop_logging')
+            rr.ob('stop_logging runs iff the filter was constructed', nlog == (1 if ctor_ok else 0), mod, run, witness=w, key=f'stoplog|ctor_ok={ctor_ok}|n={nlog}')
+            rr.ob('the stop event is set on every exit of run(), as the last lifecycle action', bool(tr) and tr[-1] == 'stop_evt.set', mod, run, witness=w, key='stop_evt-last')
+            # d
+            sent = [t for t in tr if t.startswith('send_exit_msg(')]
+            inflight = kind if (kind is not None and base in ('setup', 'loop_once', 'shutdown') and not (base == 'loop_once' and not loop_yes and kind in ('Exception', 'PropagateError'))) else None
+            is_exc = inflight in ('Exception', 'PropagateError')
+            bit = FL['error'] if is_exc else FL['clean']
+            want = init_ok and bool(FL[prop] & bit) and not (base in ('send_exit_msg',) and False)
+            if base == 'send_exit_msg' and kind is not None:
+                want = bool(FL[prop] & FL['clean'])   # the call is attempted (and is the one that faults)
+            if inflight == 'KeyboardInterrupt':
+                bit = FL['clean']
+                want = init_ok and bool(FL[prop] & bit)
+            if init_ok and setup_ok or (init_ok and base == 'setup'):
+                rr.ob("an exit message is sent iff the propagate policy has the bit for the kind of exit in flight ('error' for an Exception, else 'clean')",
+                      (len(sent) == 1) == want and (not sent or sent[0] == f"send_exit_msg('{'error' if is_exc else 'clean'}')"), mod, run, witness=w,
+                      key=f'exitmsg|inflight={inflight}|prop={prop}|sent={sent}')
+            elif not init_ok:
+                rr.ob('no exit message without communication (init did not complete)', not sent, mod, run, witness=w, key='exitmsg-noinit')
+            if sent and 'fini' in tr:
+                rr.ob('the exit message goes out before communication is torn down', tr.index(sent[0]) < tr.index('fini'), mod, run, witness=w, key='exitmsg-before-fini')
+            # e
+            exp = expected_outcome(site, kind, loop_yes) if site else 'return'
+            if exp is not None:
+                got = 'return' if (p.outcome is None or p.outcome[0] == 'return') else 'raise' if p.outcome[0] == 'raise' else p.outcome[0]
+                rr.ob(f'run() {"returns normally" if exp == "return" else "raises"} for this kind of end', got == exp, mod, run, witness=w, key=f'outcome|{kind}@{base}|loop_yes={loop_yes}|got={got}')
+        if not reached:
+            rr.unresolved(f'scenario {label}: the fault site was not reached on any complete path', mod, run, key=f'unreached|{label}')
+    # second faults: a fault in shutdown while another exception is in flight must still tear down
+    rr.paths += m.npaths
+    rr.floor('scenarios of Filter.run evaluated', n_scen, 8 * 4 * 4 * 2 + 8, mod, run)
+    rr.samples = [{'scenario': scenario_label('loop_once', 'Exception', 'all', True, False),
+                   'trace': trace(m.scenario('loop_once', 'Exception', 'all', True)[0])}]
+
+
+@rule('C08.R1b', 'a fault inside shutdown() during a clean exit turns the run into an error run: neighbours are told "error" and run() raises; exit() from each stage ends the run cleanly')
+def r1b(rr, repo):
+    m = model(repo)
+    mod, run = m.mod, m.run
+    for p in m.scenario('shutdown', 'Exception', 'all', True):
+        if p.outcome is not None and p.outcome[0] == 'loopcut':
+            continue
+        tr = trace(p)
+        w = ' '.join(tr) + ' => ' + p.outcome_text()
+        rr.ob("fault in shutdown(): the exit message says 'error'", "send_exit_msg('error')" in tr, mod, run, witness=w, key='shutdown-fault-msg')
+        rr.ob('fault in shutdown(): run() raises', p.outcome is not None and p.outcome[0] == 'raise', mod, run, witness=w, key='shutdown-fault-raises')
+    n = 0
+    for site in ('setup', 'loop_once', 'loop_once#2', 'shutdown'):
+        for kind in ('Exit', 'PropagateError'):
+            for p in m.scenario(site, kind, 'all', True, via_exit=True):
+                if p.outcome is not None and p.outcome[0] == 'loopcut':
+                    continue
+                if not any(e.kind == 'call' and e.term in ('filter.exit', 'self.exit') for e in p.events):
+                    continue
+                n += 1
+                tr = trace(p)
+                w = f'exit({kind}) from {site}: ' + ' '.join(tr) + ' => ' + p.outcome_text()
+                rr.ob('exit() called from a lifecycle stage ends run() by returning normally', p.outcome is None or p.outcome[0] == 'return', mod, run, witness=w, key=f'exit-returns|{kind}@{site.split("#")[0]}')
+                base = site.split('#')[0]
+                rr.ob('exit(): shutdown still runs exactly once (setup had completed)' if base != 'setup' else 'exit() in setup(): shutdown does not run',
+                      tr.count('shutdown') == (0 if base == 'setup' else 1), mod, run, witness=w, key=f'exit-shutdown|{base}')
+                rr.ob('exit(): communication is torn down once and the stop event ends up set', tr.count('mq.destroy') == 1 and tr[-1] == 'stop_evt.set', mod, run, witness=w, key='exit-teardown')
+                want = "send_exit_msg('error')" if kind == 'PropagateError' else "send_exit_msg('clean')"
+                rr.ob('exit(): neighbours are told the matching kind of exit', want in tr, mod, run, witness=w, key=f'exit-msg|{kind}')
+    rr.floor('exit()-from-stage scenarios reached', n, 6, mod, run)
+    rr.paths += m.npaths
+
+
+@rule('C08.R2', 'policy tables: none=0, clean and error are distinct single bits, all = clean|error; on_exit_msg obeys "error" only under the error bit '
+                '(raising PropagateError) and anything else only under the clean bit; run() tests the bit that matches the exit kind')
+def r2(rr, repo):
+    m = model(repo)
+    mod = m.mod
+    FL = m.flags
+    node = [st for st in mod.tree.body if isinstance(st, ast.Assign) and U(st.targets[0]) == 'PROP_EXIT_FLAGS'][0]
+    single = lambda v: isinstance(v, int) and v > 0 and v & (v - 1) == 0
+    ok = set(FL) == {'all', 'clean', 'error', 'none'} and FL['none'] == 0 and single(FL['clean']) and single(FL['error']) and FL['clean'] != FL['error'] and FL['all'] == FL['clean'] | FL['error']
+    rr.ob('PROP_EXIT_FLAGS is a proper bit table', ok, mod, node, witness=str(FL), key='flags-table')
+    _, init = repo.find(f'{FILTER}::Filter.init')
+    handler = [n for n in walk_scope(init) if isinstance(n, ast.FunctionDef)]
+    mqcalls = [c for c in q.name_calls(init, 'MQ')]
+    hname = None
+    for c in mqcalls:
+        kw = q.kwarg(c, 'on_exit_msg')
+        if kw is not None and isinstance(kw, ast.Name):
+            hname = kw.id
+    h = [f for f in handler if f.name == hname]
+    if not h:
+        raise Unresolved(f'{FILTER}: Filter.init does not hand a nested on_exit_msg handler to MQ(...)')
+    h = h[0]
+    ev = Evaluator(repo, mod)
+    ev.scope_node = h
+    param = q.func_params(h)[0]
+    ps = ev.run(h.body)
+    rr.paths += len(ps)
+    n = 0
+    for p in ps:
+        is_err = p.facts.get(f"eq('error', {param})")
+        if is_err is None:
+            is_err = p.facts.get(f"eq({param}, 'error')")
+        exits = [e for e in p.events if e.kind == 'call' and e.term == 'self.exit']
+        bits = [(k, v) for k, v in p.pc if k.startswith('truthy(self.obey_exit & ')]
+        w = f'{p.pc_text()} => {[repr(e) for e in exits]}'
+        if is_err is None:
+            rr.unresolved('on_exit_msg does not branch on reason == "error"', mod, h, witness=w, key='handler-shape')
+            continue
+        kind = 'error' if is_err else 'clean'
+        for e in exits:
+            n += 1
+            bitok = bool(bits) and bits[-1][1] is True and f"PROP_EXIT_FLAGS['{kind}']" in bits[-1][0]
+            rr.ob(f'a neighbour\'s {kind} exit is obeyed only under the {kind} bit of obey_exit', bitok, mod, e.node, witness=w, key=f'obey-bit|{kind}')
+            if kind == 'error':
+                rr.ob('obeying an error exit raises PropagateError (so this filter ends as an error too)', len(e.args) >= 2 and e.args[1] == 'Filter.PropagateError', mod, e.node, witness=w, key='obey-error-exc')
+            else:
+                rr.ob('obeying a clean exit is a clean exit (no exception class passed)', len(e.args) < 2 and not e.kwargs, mod, e.node, witness=w, key='obey-clean-exc')
+        if not exits and bits and bits[-1][1] is True:
+            rr.violated(f'the {kind} bit is set but the exit message is ignored', mod, h, witness=w, key=f'obey-ignored|{kind}')
+        if not bits:
+            rr.violated(f'a neighbour\'s {kind} exit is handled without consulting obey_exit', mod, h, witness=w, key=f'obey-untested|{kind}')
+    rr.floor('exit() calls in on_exit_msg', n, 2, mod, h)
+    # run(): the literal bits in `prop_exit & (E if is_exc else C)` equal the table
+    tests = [n_ for n_ in walk_scope(m.run) if isinstance(n_, ast.If) and isinstance(n_.test, ast.BinOp) and isinstance(n_.test.op, ast.BitAnd) and 'prop_exit' in U(n_.test.left)]
+    rr.floor('policy tests in run()', len(tests), 1, mod, m.run)
+    for t in tests:
+        r = t.test.right
+        if isinstance(r, ast.IfExp):
+            def val(x):
+                try:
+                    return q.fold(x, {'PROP_EXIT_FLAGS': FL})
+                except Exception:
+                    if isinstance(x, ast.Subscript) and U(x.value) == 'PROP_EXIT_FLAGS':
+                        return FL.get(q.const_str(x.slice))
+                    return None
+            rr.ob("run() tests the error bit when an Exception is in flight and the clean bit otherwise", val(r.body) == FL['error'] and val(r.orelse) == FL['clean'] and 'is_exc' in U(r.test),
+                  mod, t, witness=U(t.test), key='run-bits')
+            msg = [c for c in q.attr_calls(t, 'send_exit_msg')]
+            okm = bool(msg) and isinstance(msg[0].args[0], ast.IfExp) and q.const_str(msg[0].args[0].body) == 'error' and q.const_str(msg[0].args[0].orelse) == 'clean' and U(msg[0].args[0].test) == U(r.test)
+            rr.ob("and announces 'error' / 'clean' under the same test", okm, mod, t, key='run-msg')
+        else:
+            rr.unresolved('policy test in run() is not of the form prop_exit & (E if is_exc else C)', mod, t, key='run-bits-shape')
+    # obey_exit stored from the table
+    _, ctor = repo.find(f'{FILTER}::Filter.__init__')
+    st = [s for s, t in q.stores_to_attr(ctor, 'obey_exit') if isinstance(s, ast.Assign)]
+    rr.ob('obey_exit is looked up in the same table', bool(st) and U(st[0].value).startswith('PROP_EXIT_FLAGS['), mod, st[0] if st else ctor, key='obey-table')
+
+
+@rule('C08.R3', 'exit() always leaves by raising (Filter.Exit unless an exception class is given) and sets the stop event first')
+def r3(rr, repo):
+    m = model(repo)
+    ev = Evaluator(repo, m.mod)
+    ev.scope_node = m.exit
+    ps = ev.run(m.exit.body)
+    rr.paths += len(ps)
+    n = 0
+    for p in ps:
+        n += 1
+        rr.ob('every path of exit() ends in raise', p.outcome is not None and p.outcome[0] == 'raise', m.mod, m.exit, witness=f'{p.pc_text()} => {p.outcome_text()}', key='exit-raises')
+        if p.outcome is not None and p.outcome[0] == 'raise':
+            exc = p.outcome[1]
+            param = q.func_params(m.exit)[2]
+            given = p.facts.get(f'truthy({param})')
+            if given is False:
+                rr.ob('without an explicit exception exit() raises Filter.Exit (a SystemExit: clean)', exc.ref == m.kref['Exit'], m.mod, m.exit, witness=exc.text, key='exit-default')
+        isset = p.facts.get('truthy(self.stop_evt.is_set())')
+        if isset is False:
+            sets = [e for e in p.events if e.kind == 'call' and e.term == 'self.stop_evt.set']
+            rr.ob('the first exit() sets the stop event before raising', bool(sets), m.mod, m.exit, witness=p.pc_text(), key='exit-sets-evt')
+    rr.floor('paths of exit()', n, 2, m.mod, m.exit)
+
+
+@rule('C08.R4', 'loop_once polls the stop event in both wait loops and tests the exit_after deadline on every normal path to its end')
+def r4(rr, repo):
+    mod, fn = repo.find(f'{FILTER}::Filter.loop_once')
+    exit_ref = ('repo', f'{FILTER}::Filter.Exit')
+
+    def oracle(call, rc, path, ev_):
+        if ev_.term == 'self.exit':
+            return [Exc(exit_ref, 'Filter.Exit', call)]   # C08.R3: exit() always raises
+        return None
+
+    ev = Evaluator(repo, mod, unroll_while=1, call_oracle=oracle)
+    ps = ev.run(fn.body)
+    rr.paths += len(ps)
+    n_end = n_wait_r = n_wait_s = 0
+    for p in ps:
+        pc = p.pc
+        # receive wait: recv returned None
+        rnone = [v for k, v in pc if k.startswith('isnone(self.mq.recv(')]
+        stops = [(i, v) for i, (k, v) in enumerate(pc) if k == 'truthy(self.stop_evt.is_set())']
+        exits = [e for e in p.events if e.kind == 'call' and e.term == 'self.exit']
+        if rnone and rnone[0] is True:
+            n_wait_r += 1
+            ok = bool(stops)
+            rr.ob('while waiting for input the stop event is polled', ok, mod, fn, witness=p.pc_text(), key='poll-recv')
+            if stops and stops[0][1] is True:
+                rr.ob('a set stop event ends the wait by exit()', bool(exits) and not exits[0].args, mod, fn, witness=p.pc_text(), key='poll-recv-exit')
+        sfalse = [v for k, v in pc if k.startswith('truthy(self.mq.send(')]
+        if sfalse and sfalse[0] is False:
+            n_wait_s += 1
+            # a stop-event poll after the send attempt
+            idx = [i for i, (k, v) in enumerate(pc) if k.startswith('truthy(self.mq.send(')][0]
+            after = [s for s in stops if s[0] > idx]
+            rr.ob('while waiting to send the stop event is polled', bool(after), mod, fn, witness=p.pc_text(), key='poll-send')
+        if p.outcome is None:
+            n_end += 1
+            dl = [v for k, v in pc if k == 'isnone(self.exit_after_t)']
+            rr.ob('every normal end of loop_once looked at the exit_after deadline', bool(dl), mod, fn, witness=p.pc_text(), key='deadline-tested')
+        dl = [v for k, v in pc if k == 'isnone(self.exit_after_t)']
+        if dl and dl[0] is False:
+            cmp_ = [(k, v) for k, v in pc if k.startswith('ord(') and 'self.exit_after_t' in k]
+            if cmp_:
+                k, v = cmp_[-1]
+                inner = k[4:-1]
+                first_is_deadline = inner.startswith('self.exit_after_t')
+                rel_now_vs_deadline = ({'<': '>', '>': '<', '=': '='}[v]) if first_is_deadline else v
+                passed = rel_now_vs_deadline in ('>', '=')
+                ex = [e for e in exits if e.args and 'exit_after' in e.args[0]]
+                rr.ob('deadline passed => exit("exit_after"); not passed => no such exit', bool(ex) == passed, mod, fn, witness=p.pc_text(), key=f'deadline-exit|passed={passed}')
+                clock = inner.replace('self.exit_after_t', '').strip(', ')
+                rr.ob('the deadline is compared with a clock reading (a call)', clock.endswith('()'), mod, fn, witness=clock, key='deadline-clock')
+            else:
+                rr.violated('exit_after is set but never compared with the clock', mod, fn, witness=p.pc_text(), key='deadline-nocmp')
+    rr.floor('paths waiting for input', n_wait_r, 1, mod, fn)
+    rr.floor('paths waiting to send', n_wait_s, 1, mod, fn)
+    rr.floor('normal ends of loop_once', n_end, 1, mod, fn)
+
+
+def module_import_names(mod) -> dict:
+    """Names bound at module level by `import m` / `import m as n` and by nothing else in the module scope."""
+    imp = {}
+    other = set()
+    for n in ast.walk(mod.tree):
+        if enclosing_function(n) is not None:
+            continue
+        if isinstance(n, ast.Import):
+            for a in n.names:
+                imp[a.asname or a.name.split('.')[0]] = n
+        elif isinstance(n, ast.ImportFrom):
+            for a in n.names:
+                other.add(a.asname or a.name)
+        elif isinstance(n, (ast.FunctionDef, ast.AsyncFunctionDef, ast.ClassDef)):
+            other.add(n.name)
+        elif isinstance(n, ast.Name) and isinstance(n.ctx, ast.Store):
+            other.add(n.id)
+    return {k: v for k, v in imp.items() if k not in other}
+
+
+def locally_bound(name: str, node: ast.AST) -> bool:
+    """Is `name` bound in any function/class scope enclosing node (params, assignments, imports, defs, loops, ...)?"""
+    for a in list(ancestors_incl(node)):
+        if isinstance(a, (ast.FunctionDef, ast.AsyncFunctionDef, ast.Lambda)):
+            args = a.args
+            if any(x.arg == name for x in args.posonlyargs + args.args + args.kwonlyargs) or (args.vararg and args.vararg.arg == name) or (args.kwarg and args.kwarg.arg == name):
+                return True
+            if not isinstance(a, ast.Lambda):
+                for n in walk_scope(a):
+                    if isinstance(n, ast.Name) and isinstance(n.ctx, ast.Store) and n.id == name:
+                        return True
+                    if isinstance(n, (ast.Import, ast.ImportFrom)) and any((x.asname or x.name.split('.')[0]) == name for x in n.names):
+                        return True
+                    if isinstance(n, (ast.FunctionDef, ast.AsyncFunctionDef, ast.ClassDef)) and n.name == name:
+                        return True
+                    if isinstance(n, ast.ExceptHandler) and n.name == name:
+                        return True
+        elif isinstance(a, ast.ClassDef):
+            for st in a.body:
+                for n in ast.walk(st) if not isinstance(st, (ast.FunctionDef, ast.AsyncFunctionDef)) else [st]:
+                    if isinstance(n, ast.Name) and isinstance(n.ctx, ast.Store) and n.id == name:
+                        return True
+                    if isinstance(n, (ast.FunctionDef, ast.AsyncFunctionDef, ast.ClassDef)) and n.name == name:
+                        return True
+        elif isinstance(a, (ast.ListComp, ast.SetComp, ast.GeneratorExp, ast.DictComp)):
+            for g in a.generators:
+                if any(isinstance(x, ast.Name) and x.id == name for x in ast.walk(g.target)):
+                    return True
+    return False
+
+
+def ancestors_incl(node):
+    from ..model import ancestors
+    yield from ancestors(node)
+
+
+_CONTROL = "import time\nimport os as operating\n\ndef f(x):\n    return time() + operating()\n\ndef g(time):\n    return time()\n"
+
+
+def calls_of_modules(mod):
+    imp = module_import_names(mod)
+    out = []
+    for n in ast.walk(mod.tree):
+        if isinstance(n, ast.Call) and isinstance(n.func, ast.Name) and n.func.id in imp and not locally_bound(n.func.id, n):
+            out.append(n)
+    return out
+
+
+@rule('C08.R5', 'no call of a module object: a bare-name call whose name is bound (by scoping rules) to `import m` is a definite TypeError')
+def r5(rr, repo):
+    from ..model import Module
+    ctrl = Module(repo, 'control.py', _CONTROL)
+    found = calls_of_modules(ctrl)
+    rr.ob('positive control: the detector finds exactly the two module calls of the embedded example (and not the shadowed one)', len(found) == 2, key='control')
+    n = 0
+    for mod in repo.modules.values():
+        n += len(module_import_names(mod))
+        for c in calls_of_modules(mod):
+            rr.violated(f'`{c.func.id}(...)` calls the module `{c.func.id}` (import {c.func.id}): TypeError when reached', mod, c, key=f'module-call|{c.func.id}')
+    rr.floor('module-level `import m` bindings examined', n, 50)
+    if not any(o.status == 'VIOLATED' for o in rr.obligations):
+        rr.holds('no bare-name call resolves to an imported module anywhere in the package', key='none')
+
+
+@rule('C08.R6', 'communication really is torn down: every endpoint MQ constructs is destroyed, every socket an endpoint creates is closed by its '
+                'owner (push under the same ephemeral guard), the context is reference-counted, CLOSE + linger precede the closes')
+def r6(rr, repo):
+    mqm, mq_init = repo.find(f'{MQF}::MQ.__init__')
+    _, mq_destroy = repo.find(f'{MQF}::MQ.destroy')
+    _, mq_exitmsg = repo.find(f'{MQF}::MQ.send_exit_msg')
+    made = []
+    for st, tgt in [(s, t) for s in walk_scope(mq_init) if isinstance(s, ast.Assign) for t in s.targets]:
+        if isinstance(tgt, ast.Attribute) and U(tgt.value) == 'self' and any(isinstance(c, ast.Call) and U(c.func) in ('ZMQSender', 'ZMQReceiver') for c in ast.walk(st.value)):
+            made.append(tgt.attr)
+    made = sorted(set(made))
+    rr.floor('endpoints constructed by MQ.__init__', len(made), 3, mqm, mq_init)
+    for attr in made:
+        d = [c for c in q.attr_calls(mq_destroy, 'destroy') if U(c.func) == f'self.{attr}.destroy']
+        rr.ob(f'MQ.destroy() destroys self.{attr}', bool(d), mqm, mq_destroy, key=f'destroy|{attr}')
+        o = [c for c in q.attr_calls(mq_exitmsg, 'send_oob') if U(c.func) == f'self.{attr}.send_oob']
+        rr.ob(f'the exit message is sent through self.{attr}', bool(o), mqm, mq_exitmsg, key=f'exitmsg|{attr}')
+    zm = repo.module(Z)
+    for cls, init, destroy, socks in (('ZMQSender', 'ZMQSender.__init__', 'ZMQSender.destroy', ('pull', 'pub')),
+                                      ('ZMQReceiver', 'ZMQReceiver.Sender.__init__', 'ZMQReceiver.destroy', ('sub', 'push'))):
+        _, fi = repo.find(f'{Z}::{init}')
+        _, fd = repo.find(f'{Z}::{destroy}')
+        created = [c for c in q.attr_calls(fi, 'socket')]
+        rr.floor(f'{cls}: sockets created', len(created), 2, zm, fi)
+        closes = [c for c in q.attr_calls(fd, 'close')]
+        for s in socks:
+            cl = [c for c in closes if U(c.func.value).split('.')[-1] == s]
+            rr.ob(f'{cls}.destroy() closes the {s} socket(s)', bool(cl), zm, fd, key=f'close|{cls}|{s}')
+            if s == 'push' and cl:
+                g = q.guards_of(cl[0])
+                rr.ob('the push socket is closed under the guard it was created under (ephemeral < 2)', any(pol and 'ephemeral < 2' in U(t) for t, pol in g), zm, cl[0], key='close-push-guard')
+        # loops cover all sockets
+        for c in closes:
+            loops = [a for a in ancestors_incl(c) if isinstance(a, ast.For)]
+            rr.ob('sockets are closed in a loop over all of the endpoint\'s sockets', bool(loops), zm, c, key=f'close-loop|{cls}|{U(c.func)}')
+        gets = [c for c in q.calls_in(fi if cls == 'ZMQSender' else repo.find(f'{Z}::ZMQReceiver.__init__')[1]) if U(c.func) == 'ZMQContext.get']
+        frees = [c for c in q.calls_in(fd) if U(c.func) == 'ZMQContext.free']
+        rr.ob(f'{cls}: one ZMQContext.get() at construction is paired with one ZMQContext.free() in destroy()', len(gets) == 1 and len(frees) == 1 and not q.guards_of(frees[0]), zm, fd, key=f'ctx|{cls}')
+        sl = [c for c in q.name_calls(fd, 'sleep')]
+        first_close = min([c.lineno for c in closes] or [10 ** 9])
+        courtesy = [c for c in q.calls_in(fd) if U(c.func).endswith('send_multipart') or U(c.func).endswith('send_push')]
+        rr.ob(f'{cls}.destroy(): the courtesy CLOSE and the linger sleep precede the closes', bool(sl) and bool(courtesy) and max(c.lineno for c in courtesy) < sl[0].lineno < first_close, zm, fd, key=f'linger|{cls}')
